@@ -33,6 +33,7 @@ fn run_script(
     region: &ByteRegion,
     data: &[u8],
     exhaustive_cuts: bool,
+    touch: &dyn Fn(u64),
 ) -> Script {
     let mut sc = Script { ops: vec![], outs: vec![] };
     // expected window inside data
@@ -125,6 +126,14 @@ fn run_script(
             let off = rng.below(len as u64 + 1) as usize;
             let size = rng.below((len - off) as u64 + 1) as usize;
             subs.push((off, size));
+        }
+        // the edges of the window, always: empty ranges at its begin and at its end (the end of the last
+        // content of a cluster is the end of the source), its first and its last byte
+        subs.push((0, 0));
+        subs.push((exp.len(), 0));
+        if !exp.is_empty() {
+            subs.push((0, 1));
+            subs.push((exp.len() - 1, 1));
         }
         if exhaustive_cuts {
             for off in 0..=exp.len() {
@@ -227,6 +236,11 @@ fn run_script(
                     let ok = region.get_slice(jbk::Offset::from(off as u64), size).map(|b| &b[..] == &data[off..off + size]).unwrap_or(false);
                     check("interleaved-outer-slice", ok, format!("get_slice({},{}) on the enclosing region between two stream reads differs", off, size));
                 }
+                // the first access to another cluster of the same pack file (its tail is loaded through
+                // the same source) between two reads of this stream
+                if action == 4 || action == 5 || guard == 1 {
+                    touch(guard as u64);
+                }
                 if action == 2 {
                     let mut other = region.stream();
                     let mut ob = vec![0u8; std::cmp::min(data.len(), 1 + rng.below(40) as usize)];
@@ -250,6 +264,8 @@ fn run_script(
 fn ctx_count(_sc: &mut Script, _k: &str) {}
 
 struct PackCase {
+    /// raw and compressed clusters in one pack: contents alternate between hint No and hint Yes
+    mixed: bool,
     name: &'static str,
     comp: Comp,
     hint: Hint,
@@ -260,10 +276,10 @@ struct PackCase {
 pub fn run(ctx: &mut Ctx) {
     let mut rng = Rng::new(ctx.seed ^ 0xC13);
     let packs = [
-        PackCase { name: "raw-mem", comp: Comp::None, hint: Hint::No, open: "mem" },
-        PackCase { name: "raw-file", comp: Comp::None, hint: Hint::No, open: "file" },
-        PackCase { name: "zstd-file", comp: Comp::Zstd(3), hint: Hint::Yes, open: "file" },
-        PackCase { name: "lz4-mem", comp: Comp::Lz4(3), hint: Hint::Yes, open: "mem" },
+        PackCase { mixed: false, name: "raw-mem", comp: Comp::None, hint: Hint::No, open: "mem" },
+        PackCase { mixed: false, name: "raw-file", comp: Comp::None, hint: Hint::No, open: "file" },
+        PackCase { mixed: false, name: "zstd-file", comp: Comp::Zstd(3), hint: Hint::Yes, open: "file" },
+        PackCase { mixed: false, name: "lz4-mem", comp: Comp::Lz4(3), hint: Hint::Yes, open: "mem" },
         PackCase { name: "lzma-file", comp: Comp::Lzma(1), hint: Hint::Yes, open: "file" },
     ];
     let rounds = if ctx.quick() { 3 } else { 30 };
@@ -287,7 +303,15 @@ pub fn run(ctx: &mut Ctx) {
                         _ => rng.below(400) as usize,
                     }
                 };
+                // every third pack ends with an empty content (an empty range at the very end of the source)
+                let len = if i == n - 1 && round % 3 == 1 { 0 } else { len };
                 let data = if rng.chance(1, 2) { rng.bytes(len) } else { rng.low_entropy(len) };
+                if pc.mixed {
+                    // even positions raw (the first one random and long enough to be located in the file)
+                    let data = if i == 0 { rng.bytes(48 + len) } else { data };
+                    items.push((data, if i % 2 == 0 { Hint::No } else { Hint::Yes }));
+                    continue;
+                }
                 items.push((data, pc.hint));
             }
             let path = ctx.work.join(format!("c13-{}-{}.jbkc", pc.name, round));
@@ -304,9 +328,22 @@ pub fn run(ctx: &mut Ctx) {
             // the logical source the views sit on, and where each content starts in it
             let (src_bytes, base): (Vec<u8>, usize) = if pc.comp == Comp::None {
                 (file_bytes.clone(), 128)
+            } else if pc.mixed {
+                // raw contents sit in the file where the raw cluster was written: locate it by its first content
+                let needle = &items[0].0[..];
+                match file_bytes.windows(needle.len()).position(|w| w == needle) {
+                    Some(p) => (file_bytes.clone(), p),
+                    None => {
+                        ctx.fail(case, "framing", "the raw cluster of a mixed pack was not found in the file");
+                        case += 1;
+                        continue;
+                    }
+                }
             } else {
                 (items.iter().flat_map(|(d, _)| d.iter().copied()).collect(), 0)
             };
+            // (mixed packs) the logical source of the compressed contents
+            let comp_src: Vec<u8> = items.iter().filter(|(_, h)| *h == Hint::Yes).flat_map(|(d, _)| d.iter().copied()).collect();
             let reader: jbk::Reader = if pc.open == "mem" {
                 file_bytes.clone().into()
             } else {
@@ -321,14 +358,34 @@ pub fn run(ctx: &mut Ctx) {
                 }
             };
             let mut off = 0usize;
-            for (i, (data, _)) in items.iter().enumerate() {
+            let mut off_comp = 0usize;
+            for (i, (data, h)) in items.iter().enumerate() {
                 let my_case = case;
                 case += 1;
-                let begin = base + off;
-                off += data.len();
+                let is_comp_item = pc.mixed && *h == Hint::Yes;
+                let begin = if is_comp_item { off_comp } else { base + off };
+                if is_comp_item {
+                    off_comp += data.len();
+                } else {
+                    off += data.len();
+                }
                 if i == 0 || !ctx.wants(my_case) {
                     continue;
                 }
+                // mixed packs are re-opened for every content, so that the other cluster is not loaded yet
+                let reopened = if pc.mixed { util::guarded(|| jbk::reader::ContentPack::new(jbk::FileSource::open(&path).unwrap().into())).ok().and_then(|r| r.ok()) } else { None };
+                let pack = reopened.as_ref().unwrap_or(&pack);
+                // a content of the other cluster (raw <-> compressed)
+                let other_id: Option<u32> = if pc.mixed { items.iter().enumerate().find(|(j, (_, h2))| *j > 0 && h2 != h).map(|(j, _)| ids[j]) } else { None };
+                let touched = std::cell::Cell::new(false);
+                let touch = |_k: u64| {
+                    if let Some(oid) = other_id {
+                        if !touched.get() {
+                            touched.set(true);
+                            let _ = util::guarded(|| pack.get_content(jbk::ContentIdx::from(oid)).map(|r| r.map(|r| r.size())));
+                        }
+                    }
+                };
                 let mut crng = rng.fork(my_case);
                 let exhaustive = round == 0 && i == 1;
                 let res = util::guarded(|| {
@@ -345,14 +402,14 @@ pub fn run(ctx: &mut Ctx) {
                         continue;
                     }
                 };
-                let sc = match util::guarded(|| run_script(ctx, my_case, &mut crng, &region, data, exhaustive)) {
+                let sc = match util::guarded(|| run_script(ctx, my_case, &mut crng, &region, data, exhaustive, &touch)) {
                     Ok(sc) => sc,
                     Err(p) => {
                         ctx.fail(my_case, "panic", &format!("view script panicked: {}", p));
                         continue;
                     }
                 };
-                let op = format!("c13 {} {} {} {}", hex(&src_bytes), begin, begin + data.len(), sc.ops.join(";"));
+                let op = format!("c13 {} {} {} {}", hex(if is_comp_item { &comp_src } else { &src_bytes }), begin, begin + data.len(), sc.ops.join(";"));
                 let out = sc.outs.join(";");
                 ctx.count(&format!("source:{}", pc.name));
                 ctx.add("script_ops", sc.ops.len() as u64);
